@@ -48,6 +48,9 @@ OBLIGATIONS = [
     "SkVerif.C05.update_refit_eq_fit",
     "SkVerif.C05.predict_ignores_data_after_cutoff",
     "SkVerif.C05.update_predict_restores_cutoff",
+    "SkVerif.C05.predict_op_keeps_state",
+    "SkVerif.C05.construction_path_irrelevant",
+    "SkVerif.C05.deprecated_factories_refuse_step",
     "SkVerif.C05.horizon_order_irrelevant",
 ]
 TRUSTED = [
@@ -67,6 +70,9 @@ ASSUMPTIONS = [
     "the frame returned by update_predict is not modelled, only the regressor calls it makes and the state it leaves behind",
     "y and X are stored as float64, float32, int64 or int32 (integer-valued data); the recording regressor returns half-integers so that a "
     "feedback buffer of integer or float32 dtype would visibly alter an earlier prediction",
+    "hist cases: the generator (not the driver) keeps update blocks inside the domain above; a scheduled regressor failure is a RuntimeError raised "
+    "by one predict call (failures inside regressor.fit are not modelled); after an update that fails half-way (refit without a horizon: the data is "
+    "merged and the cutoff moved before the error) the model follows the code's ordering and the oracle stops judging",
     "a regressor is a deterministic function of (training X, training y, instance); a multi-output regressor returns one output per target column",
     "theorems are stated for finite last windows (the code forecasts NaN otherwise: modelled and compared, not a property clause) and for the "
     "horizon in the increasing order in which ForecastingHorizon stores it (horizon_order_irrelevant covers permutations)",
@@ -79,7 +85,11 @@ RULE = ("exhaustive small scope in fixed order: n in 1..12 x window_length 1..4 
         "overlapping data], each with and without refit -> predict; y/X dtypes float64/float32/int64/int32; horizon given at fit and/or predict, "
         "NaN/inf/duplicate values, np.int64 window); malformed stream (bad window, bad / "
         "in-sample / duplicate / empty / missing horizon, different horizon at predict, empty and too-short series around the bound, dirrec with X, "
-        "missing / broadcastable / mis-shaped future X, refit without horizon); corpus. Distinct by driver line; non-trivial = no error and at least one "
+        "missing / broadcastable / mis-shaped future X, refit without horizon); every public construction path (make_reduction, the eight strategy "
+        "classes with step_length 1..5, the deprecated ReducedForecaster / ReducedRegressionForecaster) on all of the above; histories (op=hist) in "
+        "which operations are refused or fail and are FOLLOWED by further operations: update_predict with X / too short or empty data / without a "
+        "horizon / with a recording regressor that raises on its k-th predict call in the middle of the moving-cutoff loop, predict with a refused, "
+        "in-sample, duplicate or new horizon, update with an empty batch + X or a refit without horizon, bad step_length; corpus. Distinct by driver line; non-trivial = no error and at least one "
         "regressor.predict call was recorded")
 LEVEL_TEXT = ("Lean 4 theorems, for all series, window lengths, out-of-sample horizons (contiguous or gapped), exogenous column counts, both scitypes and "
               "ALL regressors (arbitrary functions), about an executable model of _reduce.py that follows the code's algorithm (zero-padded cube, slice, "
@@ -89,8 +99,9 @@ LEVEL_TEXT = ("Lean 4 theorems, for all series, window lengths, out-of-sample ho
               "prediction input = last window in the training layout, recursive/dirrec feedback of earlier outputs, returned step h = output for step h, "
               "too-short series rejected). The model is tied to /repo's current source by a differential correspondence on every run: recording "
               "regressors capture every fit/predict argument verbatim and the model must reproduce all of them, the forecasts and the error kinds.")
-LEVEL_NOTE = ("Proved for the model: all eighteen obligations, no size bounds (incl.: prediction never reads data stored after the cutoff, "
-              "update_predict restores the cutoff). Only observed by correspondence (not proved): that the Python code computes "
+LEVEL_NOTE = ("Proved for the model: all twenty-one obligations, no size bounds (incl.: prediction never reads data stored after the cutoff, "
+              "update_predict restores the cutoff whether it returns or raises, a predict operation never changes data/cutoff/clones, every public "
+              "construction path builds the same forecaster). Only observed by correspondence (not proved): that the Python code computes "
               "what the model computes; error kinds of malformed inputs other than the too-short series; numpy broadcasting of a one-row future X; "
               "the NaN forecast for a non-finite last window; scitype inference. Not covered: absolute/datetime horizons, gapped indices, update batches "
               "that overlap or leave gaps, in-sample forecasts (the code raises NotImplementedError), prediction intervals. Trusted: Lean kernel, "
@@ -1044,8 +1055,9 @@ def oracle(c, out):
             if not (0 <= off <= n) or hasX:
                 return fails
             stored = st["stored"]
-            refused = (stored is None or not _valid_fh(stored) or o["Xup"] is not None or not o["uy"]
-                       or len(o["uy"]) < wl + max(stored))
+            if stored is not None and not _valid_fh(stored):
+                return fails                  # a stored in-sample horizon (recursive only): outside the statement
+            refused = (stored is None or o["Xup"] is not None or not o["uy"] or len(o["uy"]) < wl + max(stored))
             if refused:
                 # update_predict must refuse without side effects: the cutoff (m) and the data stay as they are
                 continue
